@@ -101,6 +101,9 @@ def tokenize(src):
             toks.append(Tok("str", lit, line))
             toks.append(Tok("punct", "]", line))
         elif kind not in ("ws", "lc", "bc"):
+            if kind == "str":
+                # proc-macro round trips escape `'` inside string literals (`\'`); same literal
+                text = text.replace("\\'", "'")
             toks.append(Tok(kind, text, line))
         line += text.count("\n")
         pos = m.end()
